@@ -7,12 +7,17 @@
   and denotation: Front/Ast.lean.
 
   What is proved here is the *accept + structure* half of C10 on every printed AST, for ASTs of
-  any size and nesting depth:
+  any size and nesting depth, with arbitrary trivia (blanks, tabs, line breaks, nested block
+  comments, line comments — or nothing at all) behind every token:
 
-    front_roundtrip : g.WF → load builtins g.pretty = .ok (g.den builtins)
+    front_roundtrip_text   : g.WF → GrammarText g t → load builtins t = .ok (g.den builtins)
+    front_roundtrip_trivia : g.WF → IsTrivia lead → (∀ i, IsTrivia (sep i)) →
+                               load builtins (g.prettyWith lead sep) = .ok (g.den builtins)
+    front_roundtrip        : g.WF → load builtins g.pretty = .ok (g.den builtins)   (one blank)
 
-  i.e. the front end accepts the canonical text of every well-formed source-level grammar and
-  builds exactly the rule table it denotes: rule names, modifiers and doc lines; `~` binding
+  (`GrammarText g t`, Front/AstTrivia.lean: `t` spells the tokens of `g` in order, each followed by
+  some trivia; doc comments are `marker ++ line ++ "\n"`.)  I.e. the front end accepts every such
+  text of every well-formed source-level grammar and builds exactly the rule table it denotes: rule names, modifiers and doc lines; `~` binding
   tighter than `|`, both flattened into n-ary nodes; prefix operators outside postfix operators,
   postfix operators innermost first; parentheses as `Group`; tags; PEEK slices; repetition
   bounds; decoded string and character literals.  It is the composition of
@@ -24,11 +29,13 @@
 
   -- OPEN (not provable here, decided by the differential search of harness/eng_front.py):
   --   front_exact : load builtins text = .ok r ↔ pest's meta-grammar derives `text` ∧ r = denote (its parse tree)
-  -- for *arbitrary* text: the reject half, and texts with other trivia than the canonical printer's
-  -- single blanks (comments, line breaks inside rules, no blank where none is needed).
+  -- for *arbitrary* text: the reject half (no text outside the meta-grammar is accepted), and the
+  -- two layouts `GrammarText` leaves out: a line comment that ends the text without a line break,
+  -- and trivia between `^` and the string of a case-insensitive literal.
 -/
 import PestModel.Lemmas.FrontParseRT
 import PestModel.Lemmas.FrontScanRT
+import PestModel.Lemmas.FrontScanTrivia
 
 namespace Pest
 namespace C10
@@ -118,6 +125,24 @@ theorem front_roundtrip (b : List String) (g : SGrammar) (h : g.WF) :
   obtain ⟨toks, hs, hkv⟩ := scan_roundtrip g h
   simp only [load, hs]
   rw [parse_roundtrip b g h ⟨.eoi, [], g.pretty.length⟩ rfl toks hkv]
+
+/-- **C10, accept + structure, any layout.**  Every text that spells the tokens of a well-formed
+    grammar in order, with any trivia (or none) behind each of them, loads to what the grammar
+    denotes. -/
+theorem front_roundtrip_text (b : List String) (g : SGrammar) (h : g.WF) {t : Text}
+    (ht : GrammarText g t) : load b t = .ok (g.den b) := by
+  obtain ⟨toks, hs, hkv⟩ := Front.scan_roundtrip_text g h ht
+  simp only [load, hs]
+  rw [parse_roundtrip b g h ⟨.eoi, [], t.length⟩ rfl toks hkv]
+
+/-- the same for the printer with explicit separators: `lead` before everything, `sep i` behind
+    the `i`-th token or doc line -/
+theorem front_roundtrip_trivia (b : List String) (g : SGrammar) (h : g.WF) (lead : Text)
+    (sep : Nat → Text) (hl : IsTrivia lead) (hs : ∀ i, IsTrivia (sep i)) :
+    load b (g.prettyWith lead sep) = .ok (g.den b) := by
+  obtain ⟨toks, hsc, hkv⟩ := Front.scan_roundtrip_trivia g h lead sep hl hs
+  simp only [load, hsc]
+  rw [parse_roundtrip b g h ⟨.eoi, [], (g.prettyWith lead sep).length⟩ rfl toks hkv]
 
 end C10
 end Pest
